@@ -93,8 +93,9 @@ def _fresh(SS, name, typ, wrong=False):
     return SS.fresh_float(name) if wrong else SS.fresh_int(name)       # intfloat: both accepted
 
 
-def step_class(cls, params, wrong=(), cap=30, block=()):
-    """one class, the listed parameters symbolic (the others omitted -> defaults)"""
+def step_class(cls, params, wrong=(), cap=30, block=(), pre=()):
+    """one class, the listed parameters symbolic (the others omitted -> defaults).  pre: [(class name, concrete cfg)] step classes
+    instantiated (successfully or not) earlier in the same process (C18: no dependence on what was checked before)"""
     from vf import symscalar as SS, symnp as S, instr
     from vf.explore import EX, explore
     from vf.hutil import Collector
@@ -112,8 +113,15 @@ def step_class(cls, params, wrong=(), cap=30, block=()):
             vals[p] = v; user[p] = v
         user0 = dict(user)
         keys0 = list(user)
-        ex = {'cls': cls, 'params': list(params), 'wrong': list(wrong)}
+        ex = {'cls': cls, 'params': list(params), 'wrong': list(wrong), 'pre': [list(x) for x in pre]}
         col.names = list(params)
+        for pc, pcfg in pre:
+            try:
+                _ctor(CLASSES[pc]['kind'])(dict({CLASSES[pc]['key']: pc}, **pcfg))
+            except S.Unsupported:
+                raise
+            except Exception:      # noqa: a refused earlier configuration is part of the history
+                pass
         try:
             obj = ctor(user)
             accepted = True
@@ -215,6 +223,11 @@ def replay(cex):
             t = z3.IntVal(int(v)) if typ == 'int' else z3.FPVal(float(v), F64)
             inside = inside and bool(z3.is_true(z3.simplify(dom(t))))
     user0 = copy.deepcopy(user)
+    for pc, pcfg in x.get('pre', []):
+        try:
+            _ctor(CLASSES[pc]['kind'])(dict({CLASSES[pc]['key']: pc}, **pcfg))
+        except Exception:      # noqa
+            pass
     try:
         obj = ctor(dict(user)); acc = True
     except Exception as e:      # noqa
